@@ -6,9 +6,12 @@
    lineno/col : what the AST node carries (None when the node has no position)
 
    The suppression tests of show_error are modelled only as the two subscripts
-   they evaluate (`lines[lineno - 1]`, `lines[lineno - 2]`): the generated
-   inputs of the correspondence contain no ignore comments. *)
-From Coq Require Import List Bool ZArith Lia.
+   they evaluate (`lines[lineno - 1]`, and `lines[lineno - 2]` when lineno >= 2
+   -- the code after fix 36cb910): the generated inputs of the correspondence
+   contain no ignore comments.  The subscripts of `lines` that show_error
+   evaluates, with their guards, are regenerated from node_visitor.py into
+   Gen/Total.v and compared with `pinned_subscripts` below. *)
+From Coq Require Import String List Bool ZArith Lia.
 Import ListNotations.
 Open Scope Z_scope.
 
@@ -20,6 +23,14 @@ Definition py_index {A : Type} (l : list A) (i : Z) : option A :=
   else if - n <=? i then nth_error l (Z.to_nat (n + i)) else None.
 
 Definition CONTEXT_LINES : Z := 3.
+
+(* what the model was written for: every `lines[...]` in show_error as
+   (index expression, guarding condition of the enclosing conditional
+   expression or ""), in source order; the bounds of the context loop *)
+Definition pinned_subscripts : list (String.string * String.string) :=
+  [ ("lineno - 1", ""); ("lineno - 2", "lineno >= 2"); ("i - 1", ""); ("lineno - 1", "") ]%string.
+Definition pinned_context_bounds : String.string * String.string :=
+  ("max(lineno - self.CONTEXT_LINES, 1)", "min(lineno + self.CONTEXT_LINES + 1, len(lines) + 1)")%string.
 
 (* one printed context line: its number and whether the caret line follows it *)
 Definition ctx_entry := (Z * bool)%type.
@@ -50,7 +61,10 @@ Definition emit {A : Type} (lines : list A) (lineno col : option Z) : outcome :=
       match py_index lines (ln - 1) with          (* this_line = lines[lineno - 1] *)
       | None => Crash
       | Some _ =>
-          match py_index lines (ln - 2) with      (* prev_line = lines[lineno - 2] *)
+          (* prev_line = lines[lineno - 2].strip() if lineno >= 2 else ""
+             (for lineno < 2 nothing is evaluated: the this_line subscript, which
+             already succeeded, stands in) *)
+          match (if 2 <=? ln then py_index lines (ln - 2) else py_index lines (ln - 1)) with
           | None => Crash
           | Some _ =>
               let n := Z.of_nat (length lines) in
